@@ -202,6 +202,11 @@ def deco(func, *args, dp=False, **kwargs):
 class Base(object):
     def __init__(self, marker):
         self.marker = marker
+    # value objects: all instances are equal and hash alike -- caches must key on identity
+    def __eq__(self, other):
+        return isinstance(other, Base)
+    def __hash__(self):
+        return 1
     def target(self, x, y=2, *, z=3):
         return (self.marker, 'target', x, y, z)
     @modifiers.kwoargs('b')
@@ -222,6 +227,10 @@ class Base(object):
     @deco
     def dec(self, x, y=2):
         return (self.marker, 'dec', x, y)
+    # forwards to an attribute that only exists later (set by the 'late' rule)
+    @specifiers.forwards_to_method('late', emulate=True)
+    def fwdl(self, a, *args, **kwargs):
+        return (self.marker, 'fwdl', a) + self.late(*args, **kwargs)
 
 class Sub(Base):
     pass
@@ -352,6 +361,31 @@ class History(object):
         if got != exp:
             self.problems.append(('call-differs', 'instance %d .%s(*%r, **%r) gives %s, model %s' % (i, m, a, kw, got, exp)))
 
+    def late(self, k):
+        """A retrieval that fails (the forwarded-to attribute does not exist yet), then the same
+        retrieval on the same bound object once it exists: must give what a fresh object gives."""
+        import sigtools
+        from sigtools import specifiers
+        i = self.pick(k)
+        if i is None:
+            return
+        self.log.append(['late', k])
+        inst = self.instances[i]
+        had = 'late' in vars(inst)
+        o = inst.fwdl
+        before = (sig_text(inspect.signature, o), sig_text(sigtools.signature, o))
+        inst.late = inst.target
+        after = (sig_text(inspect.signature, o), sig_text(sigtools.signature, o))
+        fresh = inst.fwdl
+        ref = (sig_text(inspect.signature, fresh), sig_text(sigtools.signature, fresh))
+        exp = model()[(self.cls_of[i], 'fwde', 'bound', 'inspect')]
+        if after != ref or ref != (exp, exp):
+            self.problems.append(('retrieval-after-failure-differs', 'instance %d .fwdl: %s (attribute missing) gave %s; once it exists the same object gives %s, a fresh one %s, model %s' % (
+                i, 'first retrieval' if not had else 'retrieval', before, after, ref, exp)))
+        if specifiers.as_forged.currently_computing:
+            self.problems.append(('guard-not-empty', 'recursion guard holds %d object(s) after the retrievals' % len(specifiers.as_forged.currently_computing)))
+            specifiers.as_forged.currently_computing.clear()
+
     def redecorate(self, m):
         """Apply a modifier to a fresh function and install it on Sub: must behave like the model's."""
         from sigtools import modifiers
@@ -369,7 +403,10 @@ class History(object):
         self.dropped[i] = weakref.ref(self.instances[i])
         del self.instances[i]
         del self.held[i]
-        gc.collect()
+        # an instance in a reference cycle of its own (inst.late = inst.target) that is also the key of a
+        # weak-value cache entry needs one pass to collect the cached wrapper and another for itself
+        for _ in range(3):
+            gc.collect()
         alive = [j for j, w in self.dropped.items() if w() is not None]
         if alive:
             j = alive[0]
@@ -398,7 +435,7 @@ def run_history(ops, stats, enum=False):
                 stats.nontriv(h.log)
             stats.sample('B', {'history': h.log})
         for kind, msg in h.problems:
-            meths = sorted(set(o[2] for o in h.log if o[0] in ('access', 'retrieve', 'call')))
+            meths = sorted(set(o[2] for o in h.log if o[0] in ('access', 'retrieve', 'call') and len(o) > 2))
             tag = ''
             if kind == 'instance-not-reclaimed':
                 tag = '/' + '+'.join(sorted(set('modifiers' if m in ('kw', 'auto', 'pos') else 'forger' if m in ('fwd', 'fwde') else 'decorator' for m in meths))) if meths else '/untouched'
@@ -417,6 +454,7 @@ def st_history():
         st.tuples(st.just('call'), st.integers(0, 3), st.sampled_from(METHODS), st.integers(0, 2)),
         st.tuples(st.just('drop'), st.integers(0, 3)),
         st.tuples(st.just('redecorate'), st.just('kw')),
+        st.tuples(st.just('late'), st.integers(0, 3)),
     )
     return st.lists(op, min_size=2, max_size=30).map(lambda ops: [('create', 'Base')] + ops)
 
@@ -470,11 +508,15 @@ def machine_run(arg):
         def drop(self, k):
             self.h.drop(k)
 
+        @rule(k=st.integers(0, 3))
+        def late(self, k):
+            self.h.late(k)
+
         @invariant()
         def agrees_with_model(self):
             if self.h.problems:
                 kind, msg = self.h.problems[0]
-                meths = sorted(set(o[2] for o in self.h.log if o[0] in ('access', 'retrieve', 'call')))
+                meths = sorted(set(o[2] for o in self.h.log if o[0] in ('access', 'retrieve', 'call') and len(o) > 2))
                 tag = ''
                 if kind == 'instance-not-reclaimed':
                     tag = '/' + '+'.join(sorted(set('modifiers' if m in ('kw', 'auto', 'pos') else 'forger' if m in ('fwd', 'fwde') else 'decorator' for m in meths))) if meths else '/untouched'
@@ -496,6 +538,13 @@ def machine_run(arg):
             hyp_settings(n, shrink=True), stateful_step_count=30))
     except AssertionError:
         pass
+    except Exception as e:
+        # Hypothesis replays a failing run while shrinking; a violation that depends on when weak
+        # caches are cleared need not recur and is then reported as flaky.  The violation itself was
+        # observed against the model and recorded with its full history before the replay.
+        if not (type(e).__module__.startswith('hypothesis') and stats.failures):
+            raise
+        stats.notes.append('Hypothesis reported %s while shrinking a recorded failure' % type(e).__name__)
     return stats
 
 
